@@ -331,19 +331,23 @@ class GPTNeoXKFACPreconditioner(BaseKFACPreconditioner):
 
         for found_name, layer_state_dict in layers.items():
             for name, layer in self._layers.values():
-                if (
-                    found_name == name
-                    and cast(
-                        GPTNeoXAssignment,
-                        self._assignment,
-                    ).factor_worker(name, 'A')
-                    == get_rank()
-                ):
+                if found_name == name:
                     assert isinstance(layer_state_dict['A'], torch.Tensor)
                     assert isinstance(layer_state_dict['G'], torch.Tensor)
 
+                    # Every rank with this layer restores the factors because
+                    # the running average of a factor which is replicated
+                    # across the model parallel group is kept (and allreduced)
+                    # by all ranks, not only by the factor worker
                     layer.load_state_dict(layer_state_dict)
-                    if compute_inverses:
+                    if (
+                        compute_inverses
+                        and cast(
+                            GPTNeoXAssignment,
+                            self._assignment,
+                        ).factor_worker(name, 'A')
+                        == get_rank()
+                    ):
                         layer.compute_a_inv(damping=self.damping)
                         layer.compute_g_inv(damping=self.damping)
 
@@ -405,24 +409,25 @@ class GPTNeoXKFACPreconditioner(BaseKFACPreconditioner):
             return
 
         for name, layer in self._layers.values():
-            if (
-                cast(GPTNeoXAssignment, self._assignment).factor_worker(
-                    name,
-                    'A',
+            # See load_state_dict(): all ranks with the layer restore the
+            # factors, only the factor worker recomputes the inverses
+            filepath = os.path.join(self.factor_checkpoint_dir, name)
+            if os.path.exists(filepath):
+                logger.info(
+                    f'loading KFAC factors for {name} on rank {get_rank()}',
                 )
-                == get_rank()
-            ):
-                filepath = os.path.join(self.factor_checkpoint_dir, name)
-                if os.path.exists(filepath):
-                    logger.info(
-                        f'loading KFAC factors for {name} on rank '
-                        f'{get_rank()}',
-                    )
-                    state_dict = torch.load(filepath)
-                    layer.load_state_dict(state_dict)
-                    if compute_inverses:
-                        layer.compute_a_inv(damping=self.damping)
-                        layer.compute_g_inv(damping=self.damping)
+                state_dict = torch.load(filepath)
+                layer.load_state_dict(state_dict)
+                if (
+                    compute_inverses
+                    and cast(
+                        GPTNeoXAssignment,
+                        self._assignment,
+                    ).factor_worker(name, 'A')
+                    == get_rank()
+                ):
+                    layer.compute_a_inv(damping=self.damping)
+                    layer.compute_g_inv(damping=self.damping)
 
     def save_factors_to_dir(self) -> None:
         """Save factors to `factor_checkpoint_dir`.
